@@ -777,8 +777,11 @@ class GeneralSFTPFile(PrefixingLogMixin):
             if noisy: self.log("_read in readChunk(%r, %r)" % (offset, length), level=NOISY)
             d2 = self.consumer.read(offset, length)
             d2.addBoth(eventually_callback(d))
-            # It is correct to drop d2 here.
-            return None
+            # The consumer requires that nothing is overwritten or truncated
+            # until this read has fired, so the requests queued behind it wait
+            # for that. Its outcome concerns its own requester only.
+            d2.addBoth(lambda ign: None)
+            return d2
         self.async_.addCallbacks(_read, eventually_errback(d))
         d.addBoth(_convert_error, request)
         return d
